@@ -169,7 +169,15 @@ func runSync(name string, args []string, out, errOut io.Writer) error {
 		return err
 	}
 
-	if err := indexRepositories(repositories, gitindex.Options{
+	// The preview leaves the shards it would remove in place. A repository that
+	// carries the name of one of them is indexed anew by -f, whatever that
+	// shard holds, so the preview must not judge it by that shard.
+	replaced := make(map[string]bool, len(actions))
+	for _, action := range actions {
+		replaced[action.Name] = true
+	}
+
+	if err := indexRepositories(repositories, replaced, gitindex.Options{
 		BuildOptions:       config.buildOptions,
 		Branches:           splitBranches(config.branches),
 		BranchPrefix:       config.branchPrefix,
